@@ -95,7 +95,7 @@ def make_cases(chk):
     for i in range(n):
         rng = random.Random(chk.seed * 100003 + i)
         gens.append(gen.history(rng, rng.randint(6, hi), weights=w, trace=(i % 6 == 5)))
-    return gen.twin_plate_cases(chk.seed) + gen.whole_source_cases(chk.seed) + gen.repeated_well_cases(chk.seed) + gen.twin_lot_cases(chk.seed) + gen.long_decimal_cases(chk.seed) + gens
+    return gen.twin_plate_cases(chk.seed) + gen.whole_source_cases(chk.seed) + gen.repeated_well_cases(chk.seed) + gen.twin_lot_cases(chk.seed) + gen.long_decimal_cases(chk.seed) + gen.big_plate_cases(chk.seed) + gens
 
 
 def run(chk, gate, status):
